@@ -90,7 +90,11 @@ func VH_C15B() {
 	if na == 0 {
 		msg = vString(vParam("msg", 1)) // message and attributes are independent in the code
 	}
-	r := logslog.NewRecord(vTime0(), vStdLevels[k], msg, 0)
+	rt := vTime0()
+	if vBool() {
+		rt = time.Time{} // a record whose own time is the zero instant is still that record's time
+	}
+	r := logslog.NewRecord(rt, vStdLevels[k], msg, 0)
 	var native Attrs
 	for n := na; n > 0; n-- {
 		a, na := vSlogAttr([]string{"a", "b"}[n%2], vParam("depth", 1))
@@ -102,8 +106,9 @@ func VH_C15B() {
 	_ = h.Handle(context.Background(), r)
 	vAssert(len(rec.evs) == 1, "C15: a handled record is emitted exactly once")
 	got := rec.evs[0]
-	lg.WriteThru(context.Background(), vNamesakes[k], vTime0(), 0, msg, native)
+	lg.WriteThru(context.Background(), vNamesakes[k], rt, 0, msg, native)
 	vAssert(len(rec.evs) == 2, "C15: reference record written")
+
 	vCover("C15B:compared")
 	vAssert(got.W == rec.evs[1].W, "C15: the handled record goes to the destination of the namesake severity")
 	vAssert(got.P == rec.evs[1].P, "C15: the handled record has the same time, message, attributes and severity as the native record")
